@@ -131,21 +131,22 @@ class World:
             c = [p for p in self.pkts if p.task is not None and not p.task.done() and pred(p)]
             return c[0].idx if c else None
         if name == "sendUnicast":
-            dest = int(a.get("indexOrDestination", a.get("nwk")))
-            tag = int(a.get("messageTag", a.get("message_tag")))
+            dest, tag = self._wire
+            if dest is None:
+                return None
             p = next((p for p in self.pkts if p.is_unicast and p.addr == dest and (p.tag in (None, tag)) and not p.task.done()), None)
             if p is not None:
                 p.tag = tag
                 return p.idx
             return None
         if name == "sendMulticast":
-            tag = int(a.get("messageTag", a.get("message_tag")))
+            tag = self._wire[1]
             i = by(lambda p: p.mode == "group")
             if i is not None:
                 self.pkts[i].tag = tag
             return i
         if name == "sendBroadcast":
-            tag = int(a.get("messageTag", a.get("message_tag")))
+            tag = self._wire[1]
             i = by(lambda p: p.mode == "broadcast")
             if i is not None:
                 self.pkts[i].tag = tag
@@ -166,6 +167,7 @@ class World:
         return None
 
     def _enqueue(self, name, args):
+        self._wire = self._wire_send(name, self.ncp.log[-1][3]) if name.startswith("send") else (None, None)
         owner = self._owner(name, args)
         self.frames.append((name, owner, self.loop.time()))
         self.queue.append((name, args, owner, self.ncp.log[-1][3]))
@@ -244,18 +246,46 @@ class World:
         self.loop.settle()
 
     def _confirm(self, dest, tag, ok, mtype="unicast"):
-        t = self.t
-        cid, tx, rx = self.ncp.cls.COMMANDS["messageSentHandler"]
-        aps = t.EmberApsFrame(profileId=0x0104, clusterId=0x0006, sourceEndpoint=1, destinationEndpoint=1,
-                              options=t.EmberApsOption.APS_OPTION_RETRY, groupId=0, sequence=0x31)
-        st = self._status("ok" if ok else "dfail")
+        """messageSentHandler built byte by byte from the UG100 layouts (pre-v14: type, destination, APS frame, 8-bit tag,
+        status, contents; v14: 32-bit status, type, destination, APS frame, 16-bit tag, contents) -- not through bellows'
+        own schema, so a schema that disagrees with the wire shows."""
+        import struct
+
+        cid = 0x3F
+        aps = struct.pack("<HHBBHHB", 0x0104, 0x0006, 1, 1, 0x0040, 0, 0x31)
+        st = int(self._status("ok" if ok else "dfail"))
         if self.version >= 14:
-            vals = [st, t.EmberOutgoingMessageType.OUTGOING_DIRECT, dest, aps, tag, b"\x01"]
+            body = struct.pack("<IBH", st, 0, dest) + aps + struct.pack("<H", tag & 0xFFFF) + b"\x01\x01"
         else:
-            vals = [t.EmberOutgoingMessageType.OUTGOING_DIRECT, dest, aps, tag, st, b"\x01"]
+            body = struct.pack("<BH", 0, dest) + aps + struct.pack("<BB", tag & 0xFF, st) + b"\x01\x01"
         self.last_confirm = (dest, tag, ok)
-        self.ncp.emit("messageSentHandler", vals)
+        self.ncp.deliver(ezspenv.enc_response_hdr(self.version, self.ncp.last_seq, cid, callback=True) + body)
         self.loop.settle()
+
+    def _wire_send(self, name, raw):
+        """(destination, tag) of a send request as they are on the wire (independent of bellows' tx schema)."""
+        import struct
+
+        seq, fid, payload = ezspenv.dec_hdr(self.version, raw)
+        wide = self.version >= 14
+        try:
+            if name == "sendUnicast":
+                _mtype, dest = struct.unpack_from("<BH", payload, 0)
+                off = 3 + 11
+            elif name == "sendMulticast":
+                dest, off = None, 11 + (6 if wide else 2)
+            else:  # sendBroadcast
+                dest = struct.unpack_from("<H", payload, 2 if wide else 0)[0]
+                off = (5 if wide else 2) + 11 + 1
+            tag = struct.unpack_from("<H" if wide else "<B", payload, off)[0]
+            off += 2 if wide else 1
+            n = payload[off]
+            if off + 1 + n != len(payload):
+                raise ValueError("length")
+            return dest, tag
+        except (struct.error, IndexError, ValueError):
+            self.viol.append(f"{name} request does not have the wire layout of protocol version {self.version}: {raw.hex()}")
+            return None, None
 
     def awaiting_confirm(self):
         return [p for p in self.pkts if p.is_unicast and p.accepted_at is not None and p.confirm is None and not p.task.done()]
@@ -289,6 +319,8 @@ class World:
                     out.append((("confirm", aw[0].idx, False), 1))
                 if L["ftag"] > 0:
                     out.append((("confirm-foreign-tag", aw[0].idx), 1))
+                    if self.version >= 14:   # 16-bit tags: a foreign tag that shares the low byte
+                        out.append((("confirm-foreign-tag-hi", aw[0].idx), 1))
                 if L["fdest"] > 0:
                     out.append((("confirm-foreign-destination", aw[0].idx), 1))
                 if L["T"] > 0 and self.loop.next_deadline() is not None:
@@ -344,6 +376,10 @@ class World:
             L["ftag"] -= 1
             p = self.pkts[label[1]]
             self._confirm(p.addr, (p.tag + 7) % 256, True)
+        elif k == "confirm-foreign-tag-hi":
+            L["ftag"] -= 1
+            p = self.pkts[label[1]]
+            self._confirm(p.addr, p.tag + 0x100, True)
         elif k == "confirm-foreign-destination":
             L["fdest"] -= 1
             p = self.pkts[label[1]]
